@@ -30,6 +30,16 @@ var solvers = []solverSpec{
 		return []string{"cvc5", "--lang=smt2", "--incremental", "--produce-models", fmt.Sprintf("--tlimit-per=%d", ms)}
 	}},
 	{"z3", func(ms int) []string { return []string{"z3", "-in", fmt.Sprintf("-t:%d", ms)} }},
+	// diversified configurations of the primary solver: quantifier-heavy goals are
+	// sensitive to instantiation order, and one of these usually finds the proof
+	// the default misses (all are sound; first definitive answer wins)
+	{"z3-new(seed=2)", func(ms int) []string { return []string{"z3-new", "-in", fmt.Sprintf("-t:%d", ms), "smt.random_seed=2"} }},
+	{"z3-new(qi-eager=100)", func(ms int) []string {
+		return []string{"z3-new", "-in", fmt.Sprintf("-t:%d", ms), "smt.qi.eager_threshold=100"}
+	}},
+	{"z3-new(seed=5,qi-eager=50)", func(ms int) []string {
+		return []string{"z3-new", "-in", fmt.Sprintf("-t:%d", ms), "smt.random_seed=5", "smt.qi.eager_threshold=50"}
+	}},
 }
 
 func (vc *VC) preamble(flags map[int]bool) string {
@@ -435,7 +445,7 @@ func solveUnit(vc *VC, opts SolveOpts) map[int]bool {
 	return flags
 }
 
-var solverSem = make(chan struct{}, 16)
+var solverSem = make(chan struct{}, 24)
 
 func recheck(vc *VC, pre string, o *Oblig, opts SolveOpts) {
 	type ans struct {
